@@ -39,6 +39,8 @@ ASSUMPTIONS = [
 ]
 
 TOL = Fraction(1, 10 ** 12)
+# public calls made on the live object between two legs (see _observe)
+OBSERVERS = ['final', 'final', 'final2', 'result', 'npoints', 'pw', 'call', 'check', 'points']
 NODAL_GLOBAL = ('trap', 'simpson', 'romberg', 'highorder')      # the published rule is claimed for nodal (non-hierarchical) grids only
 
 # options that reach the accumulation of the reported result and the values the generator draws (histogram in the evidence)
@@ -191,6 +193,24 @@ def gen_case(rng, quick=True):
         if rng.random() < 0.5:
             l0 = rng.choice([1, 2, 3])
             case['pre'] = [l0, l0 + rng.choice([0, 1, 2])]
+    if strat in ('es', 'dw', 'cell') and rng.random() < 0.5:
+        # PUBLIC CALLS ON THE LIVE OBJECT BETWEEN THE LEGS of the history: after a stop a random subset of the observers is called on
+        # the instance under test itself, then the run is continued (refine / continue_adaptive_refinement / restart) and every
+        # later stop is compared as before
+        case['observers'] = [rng.sample(OBSERVERS, rng.choice([1, 1, 2, 3])) if rng.random() < 0.65 else [] for _ in range(case['steps'] + 1)]
+        if not any(case['observers']):
+            case['observers'][0] = ['final']
+        # ... and the next leg may be a bare continue_adaptive_refinement (no refine() in between, as a user continues a stopped run):
+        # its evaluate_operation consumes whatever marker / state the calls left behind
+        case['idle'] = [bool(names) and rng.random() < 0.6 or rng.random() < 0.1 for names in case['observers']]
+    if strat in ('es', 'dw', 'cell') and rng.random() < 0.1:
+        case['reeval_legs'] = True      # started with reevaluate_at_end=True: every leg ends with evaluate_final_combi on the live object
+    if not in_scope(case):
+        # coarsening versions 1..3 keep stale area results after a scheme change on the unchanged tree: there a re-evaluation from
+        # scratch on the live object legitimately replaces them (and changes what later legs subtract) - only the pure observers
+        case.pop('reeval_legs', None)
+        if 'observers' in case:
+            case['observers'] = [['result' if n in ('final', 'final2') else n for n in names] for names in case['observers']]
     return case
 
 
@@ -371,6 +391,54 @@ def _perform_kw(case):
     return dict(recalculate_frequently=True) if case.get('recalc') else {}
 
 
+def _observe(sa, op, case, names):
+    """public observer calls on the LIVE instance; exceptions are observables (some observers are not implemented for some
+    strategies), they must not change what later stops report"""
+    import numpy as np
+    out = []
+    a = [float(x) for x in case['a']]; b = [float(x) for x in case['b']]
+    for name in names:
+        try:
+            with A.quiet():
+                if name == 'final':
+                    val = A.vec(sa.evaluate_final_combi()[0])
+                elif name == 'final2':
+                    sa.evaluate_final_combi()
+                    val = A.vec(sa.evaluate_final_combi()[0])
+                elif name == 'result':
+                    val = A.vec(op.get_result())
+                    _ = sa.calculated_solution
+                elif name == 'npoints':
+                    val = [int(sa.get_total_num_points()), int(sa.get_total_num_points(distinct_function_evals=False))]
+                elif name == 'pw':
+                    pts, wts = sa.get_points_and_weights()
+                    val = len(pts)
+                elif name == 'call':
+                    pts = [tuple(a[d] + (b[d] - a[d]) * t for d in range(len(a))) for t in (0.5, 0.25, 0.8125)]
+                    val = len(sa(pts))
+                elif name == 'check':
+                    sa.check_combi_scheme()
+                    val = 'ok'
+                elif name == 'points':
+                    val = sum(len(sa.get_points_component_grid(cg.levelvector)) for cg in sa.scheme)
+                else:
+                    raise ValueError(name)
+            out.append([name, val])
+        except Exception as e:
+            out.append([name, 'exc:' + type(e).__name__])
+    return out
+
+
+def _live_state(sa, op, case):
+    import numpy as np
+    rv = sa.refinement.value
+    st = dict(integral=A.vec(op.integral), container=A.vec(rv) if np.ndim(rv) > 0 and np.size(rv) == len(case['comps']) else None)
+    if _has_areas(case):
+        st['areas'] = sorted([op.aid(o), A.vec(o.value)] for o in sa.refinement.get_objects())
+        st['new'] = sorted(op.aid(o) for o in sa.get_new_areas())
+    return st
+
+
 def impl_run(case):
     import numpy as np
     strat = case['strat']
@@ -406,13 +474,31 @@ def impl_run(case):
         sa, op, f, eo = _build(case, op=op)
         offset = len(op.events)
     stops, rets = [], []
-    ret = A.perform(sa, eo, case, -1.0, 1, 1, **_perform_kw(case))
+    kw0 = _perform_kw(case)
+    if case.get('reeval_legs'):
+        kw0['reevaluate_at_end'] = True
+    ret = A.perform(sa, eo, case, -1.0, 1, 1, **kw0)
     for k in range(case['steps'] + 1):
         op.events.append([6])
         rets.append((ret[3], np.array(ret[3], copy=True)))
         rec = _stop_record(sa, op, case, ret, with_rule=(strat == 'dw' and case.get('op', 'int') == 'int' and case.get('ggrid', 'trap') in NODAL_GLOBAL))
         rec['aliased'] = [i for i, (live, snap) in enumerate(rets[:-1]) if not np.array_equal(live, snap)]
         stops.append(rec)
+        names = (case.get('observers') or [])[k] if k < len(case.get('observers') or []) else []
+        rec['loop_k'] = k
+        if names:
+            rec['observed'] = _observe(sa, op, case, names)
+            rec['after_observers'] = _live_state(sa, op, case)
+        if k < len(case.get('idle') or []) and case['idle'][k]:
+            # a leg without refinement: continue_adaptive_refinement evaluates the (empty set of) new objects and stops again
+            ret = A.cont(sa, -1.0, 1, 1)
+            op.events.append([6])
+            rets.append((ret[3], np.array(ret[3], copy=True)))
+            rec = _stop_record(sa, op, case, ret, with_rule=False)
+            rec['aliased'] = [i for i, (live, snap) in enumerate(rets[:-1]) if not np.array_equal(live, snap)]
+            rec['loop_k'] = k
+            rec['idle'] = True
+            stops.append(rec)
         if k == case['steps'] or sa.get_total_num_points() > case['cap']:
             break
         with A.quiet():
@@ -484,10 +570,19 @@ def close(a_hex, m, scale):
 
 def events_for_component(events, j):
     """the event log as the model replays it: a main evaluation is what the model prescribes (added to area, container and result),
-    a side evaluation touches the area value only, whatever flags the implementation passed"""
+    a side evaluation touches the area value only, whatever flags the implementation passed; an evaluate_final_combi on the live
+    object starts from a zero result and a zero container value (AFinalBegin) whatever the implementation reset"""
     out = []
+    infinal = False
     for e in events:
-        if e[0] == 2:
+        if e[0] == 12:
+            infinal = True
+            out.append([12])
+        elif e[0] == 13:
+            infinal = False
+        elif e[0] == 10 and infinal:
+            pass
+        elif e[0] == 2:
             main = e[5] if len(e) > 5 else True
             out.append([2, e[1], xq(e[2], j), 1, 1] if main else [7, e[1], xq(e[2], j)])
         elif e[0] == 9:
@@ -523,8 +618,26 @@ def steps_for_component(r, j):
     stop = 0
     dw = False
     nstops = 0
+    infinal, fparts, forder, pending_final = False, {}, [], []
     for e in r['events']:
-        if e[0] == 1:
+        if e[0] == 12:
+            infinal, fparts, forder = True, {}, []
+        elif e[0] == 13:
+            infinal = False
+            if not dw:
+                step = [5, [[i, fparts[i]] for i in forder]]
+                if order or initial is None:
+                    pending_final.append(step)      # re-evaluation at the end of this leg (reevaluate_at_end): behind its evaluation
+                else:
+                    steps.append(step)              # observer call after the stop
+        elif infinal:
+            if e[0] == 1 and e[1] not in fparts:
+                fparts[e[1]] = []; forder.append(e[1])
+            elif (e[0] == 2 and (e[5] if len(e) > 5 else True)) or e[0] == 9:
+                fparts.setdefault(e[1], []).append(xq(e[2], j))
+                if e[1] not in forder:
+                    forder.append(e[1])
+        elif e[0] == 1:
             if e[1] not in parts:
                 parts[e[1]] = []; order.append(e[1])
         elif e[0] == 2 and (e[5] if len(e) > 5 else True):
@@ -560,7 +673,8 @@ def steps_for_component(r, j):
                 steps += [p for p in pending if p[0] == 3]
                 steps.append([0, [[i, parts[i]] for i in order]])
                 steps += [p for p in pending if p[0] == 4]
-            parts, order, removed, pending = {}, [], None, []
+                steps += pending_final
+            parts, order, removed, pending, pending_final = {}, [], None, [], []
             stop += 1
             nstops += 1
     return initial or [], steps, nstops
@@ -598,7 +712,7 @@ def run_adaptive_checks(chk, case, r, mjobs):
         recalc_fired = False
         stale_any = False
         for k, st in enumerate(r['stops']):
-            fk = dict(case, steps=k)
+            fk = dict(case, steps=st.get('loop_k', k))
             scale = [Fraction(A.unfl(x)) for x in st['scale']]
             rep = st['reported']
             # ---- property predicate on the implementation alone
@@ -610,7 +724,7 @@ def run_adaptive_checks(chk, case, r, mjobs):
                 sum_ok = all(close(rep[j], sums[j], scale[j]) for j in range(nout))
             if k > 0 and r['stops'][k - 1].get('reinit'):
                 recalc_fired = True
-            if recalc_fired and strat == 'es' and not (indep_ok and sum_ok):
+            if recalc_fired and strat == 'es' and not ((indep_ok or not scope) and sum_ok):
                 # reinit_new_objects (recalculate_frequently / refinement_container) resets refinement.value and marks every area new,
                 # operation.integral is kept: every area is counted twice (C05_recalculate_unchanged_refuted); later stops of this
                 # case are consequences
@@ -660,6 +774,8 @@ def run_adaptive_checks(chk, case, r, mjobs):
                     bad_here = True
                     chk.violation('oracle:reevaluation', 'reevaluation-container-differs', dict(sig, via='evaluate_final_combi'), fk,
                                   dict(stop=k, result=[A.unfl(x) for x in st['final_combi_twice']], refinement_value=[A.unfl(x) for x in st['final_container']]))
+            if st.get('observed'):
+                check_observers(chk, case, fk, st, sig, scale, k, scope or indep_ok)
             if st['aliased']:
                 chk.violation('oracle:combination', 'result-aliased', sig, dict(case, steps=k),
                               dict(stop=k, why='the array returned at stop(s) %s changed when the run was continued' % st['aliased']))
@@ -767,6 +883,37 @@ def run_adaptive_checks(chk, case, r, mjobs):
     return evaluate
 
 
+def check_observers(chk, case, fk, st, sig, scale, k, compare_values):
+    """public calls made on the live object after stop k: the from-scratch value equals the reported one, and the calls leave result,
+    container value, area results and the new-object marker as they were (what a later leg consumes)"""
+    nout = len(case['comps'])
+    rep = st['reported']
+    names = [n for n, _ in st['observed']]
+    osig = dict(sig, observers='+'.join(sorted(set(names))))
+    for name, val in st['observed']:
+        chk.count('observer %s: %s' % (name, val if isinstance(val, str) and val.startswith('exc:') else 'ok'))
+        if name in ('final', 'final2', 'result') and isinstance(val, list) and compare_values:
+            if not all(close(val[j], q(rep[j]), scale[j]) for j in range(nout)):
+                chk.violation('oracle:reevaluation', 'reevaluation-differs', dict(osig, via='live ' + name), fk,
+                              dict(stop=k, reported=[A.unfl(x) for x in rep], returned=[A.unfl(x) for x in val], observer=name))
+    after = st['after_observers']
+    bad = []
+    if not all(close(after['integral'][j], q(st['integral'][j]), scale[j]) for j in range(nout)):
+        bad.append('operation result %s -> %s' % ([A.unfl(x) for x in st['integral']], [A.unfl(x) for x in after['integral']]))
+    if (after['container'] is None) != (st['container'] is None) or (after['container'] is not None and
+            not all(close(after['container'][j], q(st['container'][j]), scale[j]) for j in range(nout))):
+        bad.append('refinement.value %s -> %s' % (st['container'] and [A.unfl(x) for x in st['container']], after['container'] and [A.unfl(x) for x in after['container']]))
+    if 'areas' in after:
+        if [i for i, _ in after['areas']] != [i for i, _ in st['areas']]:
+            bad.append('set of areas changed')
+        elif compare_values and any(not close(v2[j], q(v1[j]), scale[j]) for (_, v1), (_, v2) in zip(st['areas'], after['areas']) for j in range(nout)):
+            bad.append('area results changed')
+        if after['new'] != st['new']:
+            bad.append('objects marked new %s -> %s' % (st['new'], after['new']))
+    if bad:
+        chk.violation('oracle:reevaluation', 'observer-changes-state', osig, fk, dict(stop=k, observers=names, changes=bad))
+
+
 def check_rule(chk, case, fk, rule, rep, scale, sig, late, k):
     """(e) published points and weights reproduce the reported integral; the combined rule is the model's combination of the
     component rules.  Evaluated exactly in Fractions; the model job is queued in `late` and checked by finish_rules."""
@@ -825,7 +972,7 @@ def finish_rules(chk, todo):
         weights, applied, combined = m
         mw = [sx.q(w) for w in weights]
         iw = [q(w) for w in item['rule']['weights']]
-        if mw != iw:
+        if sorted(mw) != sorted(iw):          # the rule is a multiset of weighted points: the order in which the component grids are walked is incidental
             chk.violation('corr:C05/rule', 'combined-weights-differ', item['sig'], item['fk'],
                           dict(stop=item['k'], model=[float(x) for x in mw][:12], impl=[float(x) for x in iw][:12]), failing_input=not item['ok'])
         if sx.q(applied) != sx.q(combined) or sx.q(applied) != item['applied'][j]:
@@ -865,6 +1012,15 @@ CORPUS = [
          version=0, nrbe=1, auto=False, errcalc=['scripted', 11], steps=1, cap=500, restart=True),
     dict(strat='dw', a=[0, 0], b=[1, 1], comps=_C2, ref=None, norm=0, boundary=True, lmin=1, lmax=2, seed=13, version=6, rebalancing=True,
          errcalc=['scripted', 11], steps=2, cap=400, restart=True),
+    # public calls on the live object between the legs: evaluate_final_combi() at a stop, then the run is continued
+    dict(strat='es', a=[0, 0], b=[1, 1], comps=[[[1, [2, 0]], [3, [1, 1]]]], ref=None, norm=0, boundary=True, lmin=1, lmax=2, seed=14,
+         version=0, nrbe=1, auto=False, errcalc=['scripted', 11], steps=3, cap=500, observers=[['final'], [], ['final2', 'pw', 'call'], ['result', 'npoints', 'check', 'points']], idle=[True, False, True, False]),
+    dict(strat='cell', a=[0, 0], b=[1, 1], comps=_C2, ref=None, norm=0, boundary=True, lmin=1, lmax=2, seed=15, errcalc='lib', steps=2, cap=600,
+         observers=[['final'], ['npoints'], ['final']], idle=[False, False, True]),
+    dict(strat='dw', a=[0, 0], b=[1, 1], comps=_C2, ref=None, norm=0, boundary=True, lmin=1, lmax=2, seed=16, version=6, rebalancing=True,
+         errcalc=['scripted', 11], steps=2, cap=400, observers=[['final', 'pw'], ['call'], ['final2']], idle=[True, False, False], restart=True),
+    dict(strat='es', a=[0, 0], b=[1, 1], comps=[[[1, [2, 0]], [3, [1, 1]]]], ref=None, norm=0, boundary=True, lmin=1, lmax=2, seed=17,
+         version=0, nrbe=1, auto=False, single_dim=True, errcalc=['scripted', 11], steps=2, cap=500, reeval_legs=True, observers=[[], ['final'], []], restart=True),
     dict(strat='cell', a=[0, 0], b=[1, 1], comps=_C2, ref=None, norm=0, boundary=True, lmin=1, lmax=2, seed=9, errcalc='lib', steps=3, cap=600),
     dict(strat='dw', a=[0, -1], b=[1, 1], comps=_C2, ref=None, norm=0, boundary=True, lmin=1, lmax=2, seed=10, version=6, rebalancing=True,
          errcalc='lib', steps=2, cap=400, op=['uq', 'Uniform'], ggrid='trapw', grid_surplusses=True, volume_weighting=True),
@@ -882,6 +1038,12 @@ def _count_options(chk, c):
     put('history', 'warmup' if c.get('warmup') else 'pre' if c.get('pre') else 'fresh')
     if c['strat'] in ('es', 'dw'):
         put('reference_solution', c.get('ref') is not None)
+    if c['strat'] in ('es', 'dw', 'cell'):
+        put('reevaluate_at_end on every leg', bool(c.get('reeval_legs')))
+        put('legs without refinement (bare continue_adaptive_refinement)', sum(1 for x in c.get('idle') or [] if x))
+        for names in c.get('observers') or [[]]:
+            for nme in (names or ['none']):
+                put('observer between legs', nme)
     if c['strat'] in ('es', 'dw', 'cell'):
         put('errcalc', c['errcalc'] if c['errcalc'] == 'lib' else 'scripted')
         put('steps', c['steps'])
@@ -941,6 +1103,10 @@ def run(chk):
                     and ('sparseSpACE/Grid.py' in where or 'sparseSpACE/Extrapolation.py' in where):
                 # the global Simpson / high-order / Romberg weights assert the quality of their rule on strongly graded refinement trees (C09)
                 chk.count('skipped: quadrature-weight assertion of the %s grid (%s; C09)' % (c['ggrid'], where))
+                continue
+            if st == 'exc' and r[0] == 'AssertionError' and c['strat'] == 'dw' and 'spatiallyAdaptiveSingleDimension2.py' in where:
+                # debugging cross-checks of the coarsening rule (get_subtraction_value) in rarely used versions: C03
+                chk.count('skipped: dimension-wise coarsening assertion (version %s, %s; C03)' % (c.get('version'), where))
                 continue
             if st == 'exc' and r[0] == 'AssertionError' and c['strat'] == 'es' and c.get('single_dim') and c.get('grid') and 'spatiallyAdaptiveExtendSplit.py' in where:
                 # parent estimation of the high-order grids counts the children of the split parent (get_sum_sibling_value: 2 or 2**dim);
